@@ -52,7 +52,7 @@ def run(tier, seed, replay=None):
     rng = random.Random(seed)
     tolf = state.knot_tolerance
     tol = C.fr(tolf)
-    nobj = 220 if tier == 'quick' else 4000
+    nobj = 500 if tier == 'quick' else 4000
     queries = []   # (spec, list of param tuples (exact), impl results per tuple (np array or err name), form)
     dist = {'pardim': {}, 'form': {}, 'rational': {}, 'periodic_dirs': {}, 'errors': {}}
     if replay:
